@@ -298,7 +298,7 @@ def checked_input_table(F):
         if fn is None:
             continue
         r = flow.checked_inputs(F, fn)
-        if r:
+        if len(r) > 1:
             out[u] = {sig: len(names) for sig, names in sorted(r.items())}
     return out
 
@@ -307,17 +307,23 @@ def run_inputs(ck, F):
     tab = json.load(open(os.path.join(os.path.dirname(__file__), "tables", "c09_checked_inputs.json")))
     ck.rule("C09.validator-inputs-checked", "in each validator / checked constructor (with the closures nested in it), every input that decides a rejecting branch on the "
             "reference tree -- an argument, a captured variable or one of their fields, counted per (type, field path) -- still does: a check that stops "
-            "looking at one of its operands (`range.start`, `max_value`, the previous offset) is a dropped validation", floor=sum(len(v) for v in tab.values()))
+            "looking at one of its operands (`range.start`, `max_value`, the previous offset) is a dropped validation", floor=sum(len(v) - 1 for v in tab.values()))
     for u, sigs in sorted(tab.items()):
         fn = F.resolve(u)
         if fn is None:
             ck.missing_anchor(u, "C09.validator-inputs-checked")
             continue
         got = flow.checked_inputs(F, fn)
+        fewer_closures = len(got.get("_closures", ())) < sigs.get("_closures", 0)
         for sig, n in sorted(sigs.items()):
+            if sig == "_closures":
+                continue
             key = "%s#%s" % (u, sig)
             have = got.get(sig, set())
-            if len(have) >= n:
+            if sig.startswith("closure:") and fewer_closures:
+                # a closure of the reference tree is gone (replaced by a library call or a helper): its parameters cannot be compared
+                ck.ok("C09.validator-inputs-checked", key, "not compared: the unit has fewer closures than on the reference tree")
+            elif len(have) >= n:
                 ck.ok("C09.validator-inputs-checked", key, "%d input(s) decide a rejecting branch: %s" % (len(have), sorted(have)))
             else:
                 ck.bad("C09.validator-inputs-checked", key, "%s: %d input(s) of type/field `%s` decide a rejecting branch (%s); the reference tree has %d: a validation no longer "
